@@ -247,7 +247,8 @@ def check(tier):
     full_ops, core_ops = build_ops(tier, True), build_ops(tier, False)
     # pass 1: the full operation menu one level shallower; pass 2: the core menu to the full depth
     tasks = [(n, tier, depth - 1, None, True) for n in names] + [(n, tier, depth - 1, op, True) for n in names for op in full_ops]
-    tasks += [(n, tier, depth, op, False) for n in names for op in core_ops]
+    deep_names = names if tier == "quick" else ["list-p2", "call-p0", "dict-p4", "sg-p4"]
+    tasks += [(n, tier, depth, op, False) for n in deep_names for op in core_ops]
     with mp.get_context("fork").Pool(ncpu()) as pool:
         for name, cov, viol, vcount, samples in pool.imap_unordered(_run_root, tasks, chunksize=1):
             for k in ("states", "transitions", "traces_validated_against_impl", "evaluations", "distinct_nontrivial"):
